@@ -55,7 +55,11 @@ Qed.
 
 Lemma parse_possibility_mono f rel i r : parse_possibility f rel i = r -> r <> OutOfFuel -> parse_possibility (S f) rel i = r.
 Proof.
-  unfold parse_possibility. destruct (eqc _ 36); [auto|]. apply possi_loop_mono.
+  unfold parse_possibility. destruct (eqc _ 36); [auto|]. intros E N.
+  destruct (possi_loop f fresh rel (eat_ws i)) as [[rel' r']| |] eqn:P.
+  - now rewrite (possi_loop_mono f _ _ _ _ P) by discriminate.
+  - now rewrite (possi_loop_mono f _ _ _ _ P) by discriminate.
+  - cbn in E. congruence.
 Qed.
 
 Lemma relation_loop_mono : forall f rel d i r, relation_loop f rel d i = r -> r <> OutOfFuel -> relation_loop (S f) rel d i = r.
